@@ -32,7 +32,7 @@ TEXT = {
             "full for responses; requests under the URI law (dependency finding KF3 where it fails)"),
     "C12": ("Proved by header-list algebra for every original header list, every list of other codings and every trailer list: C12_content_length, C12_transfer_encoding, C12_no_trailer, C12_others; plus an independent post-condition checker on the implementation.",
             "full"),
-    "C13": ("Proved for every DEFLATE stream: canonical Huffman decoding is correct for every table of code lengths (decodeSym_canon), the symbol loop for any pair of code books (inflateCodes_book), dynamic block headers with any run-length coded tables (dynamicBlock_spec), stored blocks from any bit offset (storedBlock_spec), any sequence of stored / fixed / dynamic blocks (inflateBlocks_blocks), bare, in gzip and in zlib (C13_inflateRaw_blocks, C13_gzip_blocks, C13_zlib_blocks, sniff_blocks), and at decode_body for every stack of codings each written by ANY conforming encoder (C13_decodeBody_every_encoder; a Deflater is any function to block sequences that respects the format and expands to the body). Non-vacuity against real zlib output: Hm/C13Example (kernel-evaluated) and the encoder-spec family of the check (every level / strategy / flush pattern: description satisfies Block.Ok, re-encodes bit for bit, expands to the data). Fidelity of the inflate model to flate2/miniz_oxide and gzip optional header fields: correspondence.",
+    "C13": ("Proved for every DEFLATE stream: canonical Huffman decoding is correct for every table of code lengths (decodeSym_canon), the symbol loop for any pair of code books (inflateCodes_book), dynamic block headers with any run-length coded tables (dynamicBlock_spec), stored blocks from any bit offset (storedBlock_spec), any sequence of stored / fixed / dynamic blocks (inflateBlocks_blocks), bare, in gzip (with any optional header fields: C13_gzip_bytes_opt) and in zlib, for byte strings with arbitrary padding bits (C13_inflateRaw_bytes, C13_gzip_bytes, C13_zlib_bytes, sniff_blocks), and at decode_body for every stack of codings each written by ANY conforming encoder (C13_decodeBody_every_encoder; a Deflater is any function to block sequences that respects the format and expands to the body). Non-vacuity against real zlib output: Hm/C13Example (kernel-evaluated) and the encoder-spec family of the check (every level / strategy / flush pattern: description satisfies Block.Ok, re-encodes bit for bit, expands to the data). Fidelity of the inflate model to flate2/miniz_oxide: correspondence.",
             "full for the model of flate2; model fidelity by correspondence"),
     "C14": ("Proved for arbitrary codec functions: C14_failure_atomic, C14_content_length, C14_content_encoding, C14_others_unchanged; instance with the modelled decoders C13_decodeBody_level0_stacks; independent post-condition checker on the implementation.",
             "full"),
